@@ -828,6 +828,10 @@ def _execute(sc):
             prop = 'C18' if op == RAW_OP else 'C17'
             ec = _edge_class(op, a)
             core.bump(res['ops'], op)
+            if a.get('rows_as') == 'shared-stream':
+                core.bump(res['probes'], 'rows-cut-from-one-shared-stream')
+            if a.get('view_of_bytes') and not a.get('own_section'):
+                core.bump(res['probes'], 'payload-is-a-slice-of-a-view-of-bytes')
             before = bytes(m.m)
             exc = None
             real = mres = None
